@@ -112,6 +112,23 @@ pub struct Probe {
     ctx: Rc<Ctx>,
 }
 
+/// How leaf `id` draws its word: through every `RngCore` entry point in turn, so that an adapter
+/// between a combinator (or an erased component) and the shared stream that re-implements one of
+/// them differently shifts the stream for the parts that follow.
+fn probe_draw<R: Rng + ?Sized>(rng: &mut R, id: usize) -> u64 {
+    match id % 5 {
+        0 => rng.next_u64(),
+        1 => u64::from(rng.next_u32()),
+        2 => (u64::from(rng.next_u32()) << 32) | u64::from(rng.next_u32()),
+        3 => {
+            let mut b = [0u8; 5];
+            rng.fill_bytes(&mut b);
+            b.iter().fold(0u64, |a, x| (a << 8) | u64::from(*x))
+        }
+        _ => u64::from(rng.next_u32()) ^ rng.next_u64(),
+    }
+}
+
 fn combine(input: &V, id: usize, word: u64) -> V {
     V::I(input.digest() * 31 + id as i64 * 7 + (word % 1000) as i64)
 }
@@ -127,7 +144,7 @@ impl Operator<V> for Probe {
             *c += 1;
             k
         };
-        let word = rng.next_u64();
+        let word = probe_draw(rng, self.id);
         self.ctx.log.borrow_mut().push((self.id, input.render(), word));
         if *self.ctx.fail_at.borrow() == Some(k) {
             return Err(PErr { leaf: self.id, path: vec![] });
@@ -287,7 +304,7 @@ fn eval(t: &Term, input: V, rng: &mut TraceRng, st: &mut RefState) -> Result<V, 
         Term::Leaf(id) => {
             let k = st.counter;
             st.counter += 1;
-            let word = rng.next_u64();
+            let word = probe_draw(rng, *id);
             st.log.push((*id, input.render(), word));
             if st.fail_at == Some(k) {
                 return Err(PErr { leaf: *id, path: vec![] });
@@ -536,7 +553,7 @@ struct PM {
 impl Mutator<Vec<u64>> for PM {
     type Error = ProbeMutErr;
     fn mutate<R: Rng + ?Sized>(&self, mut genome: Vec<u64>, rng: &mut R) -> Result<Vec<u64>, Self::Error> {
-        let w = rng.next_u64();
+        let w = probe_draw(rng, genome.len());
         if self.fail {
             return Err(ProbeMutErr(w));
         }
@@ -550,7 +567,7 @@ impl Recombinator<[Vec<u64>; 2]> for PM {
     type Output = Vec<u64>;
     type Error = ProbeMutErr;
     fn recombine<R: Rng + ?Sized>(&self, [a, b]: [Vec<u64>; 2], rng: &mut R) -> Result<Vec<u64>, Self::Error> {
-        let w = rng.next_u64();
+        let w = probe_draw(rng, a.len() + 1);
         if self.fail {
             return Err(ProbeMutErr(w));
         }
@@ -655,7 +672,7 @@ struct PMu32 {
 impl Mutator<u32> for PMu32 {
     type Error = ProbeMutErr;
     fn mutate<R: Rng + ?Sized>(&self, genome: u32, rng: &mut R) -> Result<u32, Self::Error> {
-        let w = rng.next_u64();
+        let w = probe_draw(rng, genome as usize);
         if self.fail {
             Err(ProbeMutErr(w))
         } else {
